@@ -73,6 +73,12 @@ def witness_source(tier, alloc):
     # the usize repeat form takes any constant expression a native `[x; n]` takes: a const generic parameter of the enclosing function, an
     # associated constant through `Self` (accept witnesses: they must compile - an expansion that puts the length into a nested item cannot see them)
     L.append("pub fn g_repconst_generic_braced<const K: usize>() -> GenericArray<u32, generic_array::ConstArrayLength<K>> where generic_array::typenum::Const<K>: generic_array::IntoArrayLength { arr![x(); { K }] }")
+    if alloc:
+        # the boxed type-level repeat form takes any length type a caller can name - a generic parameter of the enclosing function, an associated
+        # type through `Self` (accept witnesses: an expansion that hoists `<N as Unsigned>::USIZE` into a nested const item cannot see them)
+        L.append("pub fn gb_repty_generic<L2: generic_array::ArrayLength>() -> alloc::boxed::Box<GenericArray<u32, L2>> { box_arr![x(); L2] }")
+        L.append("pub trait HasLenTy { type Len: generic_array::ArrayLength; fn make_boxed() -> alloc::boxed::Box<GenericArray<u32, Self::Len>> { box_arr![x(); Self::Len] } }")
+        L.append("pub fn gb_use() -> alloc::boxed::Box<GenericArray<u32, U5>> { gb_repty_generic::<U5>() }")
     L.append("pub struct HasLen; impl HasLen { pub const LEN: usize = 3; pub fn make() -> GenericArray<u32, U3> { arr![x(); { Self::LEN }] } }")
     L.append("pub fn g_use() -> (GenericArray<u32, U4>, GenericArray<u32, U2>) { (g_repconst_generic_braced::<4>(), g_repconst_generic_braced::<2>()) }")
     return "\n".join(L) + "\n", ks
